@@ -58,6 +58,14 @@ def run_traces(rep: Any, scenarios: list[dict[str, Any]], label: str, nontrivial
     for ot in ots:
         if ov[ot['id']]['verdict'] != 'accepted':
             rep.violation(f'{ot["id"]}: the orchestrator is not a behaviour of Orchestration.tla: {ov[ot["id"]]["verdict"]}', payload=ot)
+    # ... and what each operator process remembered about the objects, against Inventory.tla
+    from vf import inventory
+    mts = [m for t in traces for m in t.get('mem', [])]
+    mv = inventory.judge(mts, rep)
+    rep.evaluations += len(mts); rep.traces += len(mts)
+    for m in mts:
+        if mv.get(m['id'], 'accepted') != 'accepted':
+            rep.violation(f'{m["id"]}: the memories of the operator are not a behaviour of Inventory.tla: {mv[m["id"]]}', payload=m)
     if traces:
         t = traces[len(traces) // 2]
         rep.sample({'scenario': t['scenario'], 'trace_head': t['events'][:12]})
